@@ -8,6 +8,10 @@ ROOT = os.path.dirname(os.path.dirname(os.path.abspath(__file__)))
 
 # id -> (engine, category, technique, text, note, design_ref)
 CHECKS = {
+    "C03": dict(engine="statex", category="model_checking", design_ref="DESIGN.md section 7 C03",
+        technique="explicit-state search over (lazy packet state x accessor alphabet) on the real lazy packet, every answer compared with the eager packet; plus unpruned enumeration of all accessor programs of length 3/4; plus full-decode equivalence on every enumerated input",
+        text="For every non-empty input of the deviation<=1 neighbourhoods of the per-type fixture seeds x {NoCopy} x {DecodeStreamsAsDatagrams}: the lazy packet after Layers() equals the eager one (layers, contents, payloads, rendered fields, link/network/transport/application/error layers, truncation, String). For one representative per decode shape (the step-by-step trajectory of the lazy decode, read through an injected accessor): BFS over lazy states x ~18 accessor letters (Layer(t) for present and absent types, LayerClass, the five special-layer getters, Layers, String, Dump), each transition a fresh lazy packet with the path replayed, each answer compared with the eager packet's answer. For every unmodified seed: all programs of length 3 [thorough 4], unpruned.",
+        note="Trusted: pruning key (layers decoded, continuation, special layers set, truncated) determines the future of a lazy packet on a non-caching implementation; the unpruned enumeration guards that assumption. Dump compared only without error layer."),
     "C12": dict(engine="sched", category="model_checking", design_ref="DESIGN.md section 7 C12",
         technique="stateless preemption-bounded exploration of all thread interleavings of the real assemblers under a cooperative scheduler over a sync shim (import rewrite via go build -overlay), iterating the bound 0,1,2[,3]",
         text="Six scenarios (first packets of both directions racing; same-direction first-packet race; close + free-list reuse against a stale lookup; flusher against assembler; out-of-order against in-order feeder; three assemblers) with 2-3 assemblers on one shared pool and keys forced to collide are executed, for tcpassembly and reassembly separately, under every schedule with at most 2 [thorough 3] preemptions, scheduling points before every Mutex/RWMutex operation and inside the stream callbacks. Per execution: no panic, deadlock or livelock; callbacks of one stream never overlap and never follow its completion; bytes only reach the stream of their own connection; directions fed by one assembler satisfy the C09/C10 order oracle; both directions share one live entry (reassembly); every kept stream completed exactly once after a final flush.",
